@@ -34,7 +34,7 @@ theorem aggregates_not_correct : ¬ AggregatesCorrect := by
 /-- **partial theorem**: outside the class of F-ora-1 (`max` over inputs without a non-negative
 value) the registered functions return exactly the specified aggregate -/
 theorem aggregates_correct_partial (S : Nat) (fn : String) (xs : List Int) (hne : xs ≠ [])
-    (hfn : knownAgg fn = true) (hclass : fn = "max" → hasNonneg xs = true) :
+    (_hfn : knownAgg fn = true) (hclass : fn = "max" → hasNonneg xs = true) :
     aggregate S fn xs = specAggregate S fn xs := by
   have hl : xs.length ≠ 0 := by
     cases xs with
